@@ -189,7 +189,9 @@ def g_int(rng, depth, env):
         return ["if", g_bool(rng, depth - 1, env), g_int(rng, depth - 1, env), g_int(rng, depth - 1, env)]
     if r < 0.93:
         return [rng.choice(["min", "max"]), [g_int(rng, depth - 1, env), g_int(rng, depth - 1, env)]]
-    if r < 0.97:
+    if r < 0.955:
+        return ["attr", g_int(rng, depth - 1, env), rng.choice(["real", "real", "imag"])]
+    if r < 0.975:
         return ["**", g_int(rng, 0, env), ["c", rng.randint(0, 2)]]
     return ["/", g_int(rng, depth - 1, env), ["c", rng.choice([1, -1])]]
 
